@@ -19,7 +19,8 @@ EXPLANATION = (
     "var_context), the loop that carries the subcontexts of earlier types over to the new context['variable'] ranges over "
     "the whole list stored under 'compose', and __call__ returns (getter(data), the unpacked context); (d) the constructors reject "
     "non-callable/Variable getters and empty/non-Variable argument lists with LenaTypeError before any state is "
-    "built.  Does not decide the nested-dictionary values (that compose lists types in order for all chains).")
+    "built; (e) get_data, get_context and get_data_context split a value by the one predicate _has_context, which recognises a pair "
+    "with isinstance (subclasses of dict are contexts).  Does not decide the nested-dictionary values (that compose lists types in order for all chains).")
 RULES = {
     "C14-a": "FOLD: Compose getter/context and Combine getter iterate self._vars forwards, threading the value",
     "C14-b": "FRESH: every var_context given to _update_context / stored in combine is a per-call deepcopy; __call__ does not write self",
